@@ -14,6 +14,7 @@ representation, index of the first matching bit, …): they are properties C01/C
 ≙ sectypes.py:844-866  __mul__                     -> `mul`
 ≙ sectypes.py:884-918  comparisons                 -> `ltBit`, `eqBit` on the difference
 ≙ sectypes.py:935-959  _output                     -> `outS`, `outE`
+≙ sectypes.py          reciprocal (normalisation)   -> `recipClamp`, `recip`
 -/
 import MpycV.Model.Fxp
 
@@ -97,5 +98,16 @@ def outE (t : Ty) (a : F) : Int := if norm t.p a.S.A = 0 then 0 else a.E
 def Normal (t : Ty) (a : F) : Prop :=
   a.S.A = 0 ∨ ((2 : Int) ^ (t.f - 1) ≤ a.S.A ∧ a.S.A ≤ (2 : Int) ^ t.f) ∨
     (-(2 : Int) ^ t.f ≤ a.S.A ∧ a.S.A ≤ -(2 : Int) ^ (t.f - 1))
+
+/-! ### reciprocal  ≙ sectypes.py `SecureFloat.reciprocal` (since repo fix fd7109b) -/
+
+/-- the normalisation step of `reciprocal`: `sgn = 1 - (s < 0)*2; s = sgn * min(max(sgn * s, 0.5), 1)` on the integer scale
+(`0.5 ≙ 2^(f-1)`, `1 ≙ 2^f`); `r` is WHATEVER the secure fixed-point computation `0.5 * (1/s)` returned -/
+def recipClamp (f : Nat) (r : Int) : Int :=
+  let sgn : Int := if r < 0 then -1 else 1
+  sgn * min (max (sgn * r) ((2 : Int) ^ (f - 1))) ((2 : Int) ^ f)
+
+/-- `reciprocal` of `(S, E)`: significand `recipClamp f r`, exponent `1 - E` -/
+def recip (t : Ty) (a : F) (r : Int) : F := ⟨⟨recipClamp t.f r, false⟩, 1 - a.E⟩
 
 end MpycV.Flt
